@@ -499,7 +499,11 @@ unsafe fn of1024_impl(cv: &mut X8) {
     cv.7 = p.7;
 }
 
-#[cfg(any(feature = "std", target_feature = "aes"))]
+#[cfg(any(
+    feature = "std",
+    target_feature = "ssse3",
+    target_feature = "aes"
+))]
 pub mod aes {
     use super::*;
     #[target_feature(enable = "sse2", enable = "ssse3", enable = "aes")]
